@@ -3,11 +3,15 @@
 mod bridge;
 mod c_addr;
 mod c_conn;
+mod c_dispatch;
+mod c_drop;
+mod c_fault;
 mod c_frame;
 mod env;
 mod c_match;
 mod c_msg;
 mod c_names;
+mod c_objsrv;
 mod c_sasl;
 mod c_serial;
 mod c_xml;
@@ -85,6 +89,33 @@ fn main() {
             run.rule = "histories of {create stream for one of 4 rules (incl. the rule-less stream), clone, drop, incoming signal of one of 4 kinds, poll} on a p2p connection with max_queued 1..3, harness-owned scheduler; oracle = model queues: each stream receives exactly the messages matching its rule that arrived while it existed, once, in arrival order (a clone continues from the original's position); streams sharing a rule keep receiving after one of them is dropped; non-trivial = a drop between two incoming messages; distinct by hash(history)".into();
             vec![spec("streams", 15_000, 400_000, 400, c_conn::c20_case)]
         }
+        "C24" => {
+            run.rule = "histories of at / remove over 6 paths {/, /a, /a/b, /a/b/c, /a/x, /d} x 3 interface types on a fresh object server: exhaustively every history of up to 3 (quick) / 4 (thorough) operations with the 18 (path, interface) pairs looked up after every step, plus random histories up to 40 operations that additionally call a method on every path and introspect a path after every step (fake peer, harness scheduler); oracle = model set of (path, interface): at() returns false on duplicates, remove() errs on absent, lookup / call result / introspected interface names agree with the model; no panic; non-trivial = a remove while an ancestor or descendant holds an interface, or any operation on /".into();
+            run.exhaustive = Some(true);
+            vec![custom("registry-enum", c_objsrv::c24_enum_case), spec("registry-random", 4_000, 150_000, 80, c_objsrv::c24_random_case)]
+        }
+        "C25" => {
+            run.rule = "histories of at / remove of 3 interface types (two with properties) over 7 paths and of adding / removing ObjectManager at /m (and at the disjoint /n in a third of the cases); a client attaches with GetManagedObjects when a manager appears and folds InterfacesAdded / InterfacesRemoved, a Ping round trip after every step is the ordering barrier; oracle: after every step the folded view (ignoring paths without interfaces) equals the model's objects under that manager with their current property values; non-trivial = at least one at/remove after a client attached; distinct by hash(history)".into();
+            run.assumptions.push("nested managers (one inside the other's subtree) are not generated: the specification is silent on which manager signals".into());
+            vec![spec("manager", 6_000, 200_000, 120, c_objsrv::c25_case)]
+        }
+        "C29" => {
+            run.rule = "bursts of 1..8 calls (delivered in one chunk or one by one) to an interface registered with spawn = false (or, in a quarter of the cases, the default) whose &self / &mut self handlers yield 0..5 times and optionally wait on a harness gate opened in a generated order; harness-owned scheduler; oracle: every call gets exactly one reply carrying its id, and with spawning disabled the start/end log is strictly start0,end0,start1,end1,... in arrival order; non-trivial = at least 3 calls where an earlier handler yields more often than a later one".into();
+            vec![spec("order", 10_000, 300_000, 120, c_dispatch::c29_case)]
+        }
+        "C30" => {
+            run.rule = "(a) method, getter and setter handlers (spawn default and spawn = false, &self and &mut self) that register / remove objects and emit signals through the object server, driven by 1..6 pipelined calls incl. Properties.Get/Set/GetAll; (b) a call fed 0..7 scheduler steps after at() returned, on a connection whose object server did or did not exist before; harness-owned scheduler; oracle: every call is answered before the system comes to rest (hang = nothing runnable with a call unanswered); handlers of spawn = false interfaces make no D-Bus method calls (documented precondition); non-trivial = every re-entrance case, and on-demand cases with a delay of at most 3 steps".into();
+            vec![spec("reenter", 8_000, 200_000, 120, c_dispatch::c30_reenter_case), spec("setup", 8_000, 200_000, 60, c_dispatch::c30_setup_case)]
+        }
+        "C38" => {
+            run.level = "fault_enumeration".into();
+            run.rule = "a scripted session on a p2p connection (1..3 pending calls, a rule-less stream and a rule stream, an inbound sequence of 2..7 signals / returns / error replies) with the transport failing (a) after every byte position 0..=len of the inbound stream, as EOF and as an I/O error, and (b) at every outgoing sendmsg (with the read side failing too) — all fault points of 6 (quick) / 40 (thorough) fixed sessions are enumerated, further sessions and schedules are random; oracle: every call whose reply arrived completely before the fault gets it, every other call completes with an error, each stream yields exactly the messages completed before the fault and then ends, a call and a subscription made afterwards fail without hanging, no panic; non-trivial = fault strictly inside a message or with a call pending; distinct by hash(session, fault)".into();
+            vec![spec("faults", 6_000, 200_000, 60, c_fault::c38_case)]
+        }
+        "C39" => {
+            run.rule = "(a) a p2p connection (optionally with an object server registered) and 1..7 further handles drawn from {connection clone, rule-less stream, rule stream, proxy, proxy signal stream}, dropped in a generated order with the connection's tasks run a generated number of steps in between; oracle: the scripted socket's halves are untouched while any handle lives and both dropped once the last one is gone; (b) 1..3 calls to a handler that waits on a harness gate, then graceful_shutdown(): it must stay pending (and the transport open) while the handlers are gated and complete, with every reply written and the transport closed, once the gate opens; non-trivial = at least 3 handles of at least 2 kinds, or any shutdown case; distinct by hash(handles, order)".into();
+            vec![spec("drop", 15_000, 400_000, 40, c_drop::c39_drop_case), spec("shutdown", 5_000, 100_000, 40, c_drop::c39_shutdown_case)]
+        }
         "C14" => {
             run.rule = "1..5 valid reference-built messages (some carrying fds) concatenated into a stream, delivered to ReadHalf::receive_message through a scripted socket with generated chunking (single chunk, 1-byte drip, message boundaries, random cuts incl. inside a header; an fd-carrying message start is always a chunk start as on a real unix socket) and a generated handshake-leftover prefix (bytes and fds already read); oracle: the same messages, byte-identical, in order, each with its own fds (by inode), strictly increasing receive positions, then end-of-stream; plus headers announcing more than 128 MiB must fail without a body-sized read; non-trivial = at least 2 messages and a cut inside a message or an fd-carrying message; distinct by hash(stream, prefix, chunking)".into();
             vec![spec("frame", 100_000, 3_000_000, 600, c_frame::c14_case), spec("oversized", 5_000, 100_000, 200, c_frame::c14_big_case)]
@@ -111,6 +142,63 @@ fn main() {
             if run.truncated {
                 run.exhaustive = Some(false);
             }
+        }
+        "C24" => {
+            let f = &*specs[0].f;
+            let maxl = run.pick(3u32, 4u32);
+            let mut total = 0u64;
+            for l in 1..=maxl {
+                total += 36u64.pow(l);
+            }
+            run.enumerate(
+                "registry-enum",
+                total,
+                &|mut i| {
+                    let mut l = 1u32;
+                    loop {
+                        let n = 36u64.pow(l);
+                        if i < n {
+                            break;
+                        }
+                        i -= n;
+                        l += 1;
+                    }
+                    let mut b = vec![];
+                    for _ in 0..l {
+                        b.push((i % 36) as u8);
+                        i /= 36;
+                    }
+                    b
+                },
+                f,
+            );
+            run.extra.insert("enumerated".into(), serde_json::json!({"max_ops": maxl, "histories": total}));
+            run.exhaustive = Some(!run.truncated);
+        }
+        "C38" => {
+            let f = &*specs[0].f;
+            let sessions = c_fault::fixed_sessions(run.pick(6, 40));
+            let mut cases: Vec<Vec<u8>> = vec![];
+            for sb in &sessions {
+                let mut s2 = vcore::src::Src::new(sb);
+                let s = c_fault::session_from(&mut s2);
+                let len = c_fault::inbound_len(&s);
+                for kind in 0..2u8 {
+                    for pos in 0..=len {
+                        let mut b = vec![kind, (pos & 0xff) as u8, (pos >> 8) as u8];
+                        b.extend_from_slice(sb);
+                        cases.push(b);
+                    }
+                }
+                for call in 0..s.ncalls {
+                    let mut b = vec![2u8, call as u8, 0];
+                    b.extend_from_slice(sb);
+                    cases.push(b);
+                }
+            }
+            run.enumerate("faults", cases.len() as u64, &|i| cases[i as usize].clone(), f);
+            run.extra.insert("enumerated".into(), serde_json::json!({"fixed_sessions": sessions.len(), "fault_points": cases.len()}));
+            run.exhaustive = Some(!run.truncated);
         }
         "C16" => {
             let f = &*specs[0].f;
